@@ -421,7 +421,7 @@ def expand(repo, template_path, out_path, include_dirs=()):
         if b:
             segmap.append((g, g + len(b), o))
         g += len(b)
-    meta = {"template": template_path, "out": out_path, "fns": fns, "types": types, "others": others,
+    meta = {"repo": repo, "template": template_path, "out": out_path, "fns": fns, "types": types, "others": others,
             "log": log, "segmap": segmap, "gen_len": len(blob)}
     verify_fidelity(repo, meta, blob)
     return meta
